@@ -78,7 +78,7 @@ Inductive node :=
 | Copy (targets : list node)                      (* CopyStreamResult(targets) *)
 | Tagger (add discard : list tag) (targets : list node)   (* StreamTagger(targets, add, discard) *)
 | Stamp (target : node)                           (* TimestampingStreamResult(target) *)
-| ToQueue (code : seg) (target : node).           (* StreamToQueue(queue, code), the queue drained into target *)
+| ToQueue (code : option seg) (target : node).    (* StreamToQueue(queue, code), code a string or None, the queue drained into target *)
 
 (* what a leaf logs: a sink the call it received (status arguments by reference),
    a StreamFailFast one mark per callback invocation *)
@@ -119,7 +119,7 @@ Fixpoint deliver (n : node) (e : event tagref) (st : store) : list (list rentry)
       let l := length st in
       deliver_list deliver ts (with_tags e (match v with [] => TNone | _ => TLoc l end)) (st ++ [v])
   | Stamp t => deliver t (with_ts e (stamp (v_ts e))) st
-  | ToQueue c t => deliver t (with_route e (route_code c (v_route e))) st
+  | ToQueue c t => deliver t (with_route e (route_code_opt c (v_route e))) st
   end.
 
 (* startTestRun / stopTestRun arriving at a node: they carry no arguments, every
